@@ -153,7 +153,8 @@ pub fn generate(a: &Args) {
                 dem8(&mut out, Complex::new(rad * t.cos(), rad * t.sin()), sg, "grid");
             }
         }
-        for &x in &[-1000.0, -50.0, -4.0, -1.0, -1e-9, 0.0, 1e-9, 0.3, 1.0, 4.0, 50.0, 1000.0] { demb(&mut out, x, sg); }
+        // "any position": also samples many orders of magnitude away from the constellation points (after a gain error) or from anything
+        for &x in &[-1e17, -1e12, -1e7, -1000.0, -50.0, -4.0, -1.0, -1e-9, -1e-12, -1e-17, 0.0, 1e-17, 1e-12, 1e-9, 0.3, 1.0, 4.0, 50.0, 1000.0, 1e7, 1e12, 1e17] { demb(&mut out, x, sg); }
     }
     for _ in 0..(if th { 60000 } else { 500 }) {
         let sg = if rng.coin(1, 5) { 10f64.powf(rng.unit() * 24.0 - 12.0) } else { 10f64.powf(rng.unit() * 4.0 - 2.0) };
